@@ -2,6 +2,7 @@ import BlockModes.Impl.Block
 import BlockModes.Impl.CfbBuf
 import BlockModes.Impl.Ctr
 import BlockModes.Glue.Wrapper
+import BlockModes.Impl.Pool
 /-
   C16 — clones and separate instances are independent, deterministic values (partial).
 
@@ -74,5 +75,103 @@ theorem run_deterministic {σ op obs : Type} (step : σ → op → obs × σ) (s
   induction h₁ generalizing s with
   | nil => simp [runOps]
   | cons o os ih => simp [runOps, ih]
+
+/-! ### programs over a pool of instances: any number of clones, `clone_from`, calls in any order
+
+  `Impl.Pool` is the model of what the driver executes for the ops `clone`, `use k`, `clonefrom k` and the data
+  calls.  The *lineage* of an object is the list of calls made on it and on the objects it was (transitively)
+  cloned from, up to each cloning moment.  The theorem: every observation equals the observation of a fresh
+  instance that replays the lineage — so nothing done to any *other* object can be seen, and an object's output is
+  a deterministic function of its cipher, IV (the initial state) and the calls in its lineage. -/
+section pool
+variable {σ op obs : Type}
+
+theorem runCalls_append (f : σ → op → obs × σ) (s : σ) (h₁ h₂ : List op) :
+    runCalls f s (h₁ ++ h₂) =
+      ((runCalls f s h₁).1 ++ (runCalls f (runCalls f s h₁).2 h₂).1, (runCalls f (runCalls f s h₁).2 h₂).2) := by
+  induction h₁ generalizing s with
+  | nil => simp [runCalls]
+  | cons o os ih => simp [runCalls, ih]
+
+theorem runCalls_snoc_state (f : σ → op → obs × σ) (s : σ) (h : List op) (o : op) :
+    (runCalls f s (h ++ [o])).2 = (f (runCalls f s h).2 o).2 := by
+  rw [runCalls_append]; simp [runCalls]
+
+/-- every object in the pool is the replay of its lineage. -/
+def Rel (f : σ → op → obs × σ) (init : σ) (p : Pool σ) (hp : Pool (List op)) : Prop :=
+  p.cur = hp.cur ∧ p.insts = hp.insts.map (fun h => (runCalls f init h).2)
+
+theorem getD_map_replay (g : List op → σ) (l : List (List op)) (i : Nat) :
+    (l.map g).getD i (g []) = g (l.getD i []) := by
+  simp [List.getD_eq_getElem?_getD]
+
+theorem step_rel (f : σ → op → obs × σ) (init : σ) (p : Pool σ) (hp : Pool (List op)) (o : POp op)
+    (h : Rel f init p hp) :
+    Rel f init (Pool.step f init p o).2 (Pool.step histStep [] hp o).2 ∧
+    (Pool.step f init p o).1 = (match o with | .call c => some (replayObs f init (hp.get []) c) | _ => none) := by
+  obtain ⟨hc, hi⟩ := h
+  have hinit : init = (runCalls f init []).2 := rfl
+  have hget : p.get init = (runCalls f init (hp.get [])).2 := by
+    unfold Pool.get
+    rw [hi, hc]
+    conv => lhs; rw [hinit]
+    exact getD_map_replay (fun h => (runCalls f init h).2) hp.insts hp.cur
+  cases o with
+  | call c =>
+    refine ⟨⟨hc, ?_⟩, ?_⟩
+    · simp only [Pool.step, Pool.set, histStep]
+      rw [hi, hc, hget, List.map_set, runCalls_snoc_state]
+    · simp only [Pool.step, replayObs, hget]
+  | clone =>
+    refine ⟨⟨hc, ?_⟩, rfl⟩
+    simp only [Pool.step, Pool.clone]
+    rw [hget, hi]; simp
+  | use k =>
+    refine ⟨?_, rfl⟩
+    simp only [Pool.step, Pool.use]
+    have : p.insts.length = hp.insts.length := by rw [hi]; simp
+    rw [this]
+    split
+    · exact ⟨rfl, hi⟩
+    · exact ⟨hc, hi⟩
+  | cloneFrom k =>
+    refine ⟨?_, rfl⟩
+    simp only [Pool.step, Pool.cloneFrom]
+    have : p.insts.length = hp.insts.length := by rw [hi]; simp
+    rw [this]
+    split
+    · refine ⟨hc, ?_⟩
+      simp only [Pool.set]
+      rw [hi, hc, List.map_set]
+      congr 1
+      conv => lhs; rw [hinit]
+      exact getD_map_replay (fun h => (runCalls f init h).2) hp.insts k
+    · exact ⟨hc, hi⟩
+
+theorem run_rel (f : σ → op → obs × σ) (init : σ) (prog : List (POp op)) (p : Pool σ) (hp : Pool (List op))
+    (h : Rel f init p hp) :
+    (Pool.run f init p prog).1 = Pool.lineageObs f init hp prog := by
+  induction prog generalizing p hp with
+  | nil => rfl
+  | cons o os ih =>
+    obtain ⟨h1, h2⟩ := step_rel f init p hp o h
+    simp only [Pool.run, Pool.lineageObs]
+    rw [ih _ _ h1, h2]
+    cases o <;> rfl
+
+/-- **every observation of a program over any number of clones is what a fresh instance replaying the lineage
+    of the object it was made on would observe** — whatever was done to the other objects in between. -/
+theorem pool_lineage (f : σ → op → obs × σ) (init : σ) (prog : List (POp op)) :
+    (Pool.run f init ⟨[init], 0⟩ prog).1 = Pool.lineageObs f init ⟨[[]], 0⟩ prog :=
+  run_rel f init prog _ _ ⟨rfl, rfl⟩
+
+
+/-- non-vacuity: a counter object; clone after two calls, advance the original, overwrite the clone from the
+    original (`clone_from`), interleave: the observations are those of the lineages. -/
+example :
+    (Pool.run (fun (s : Nat) (o : Nat) => (s + o, s + o)) 0 ⟨[0], 0⟩
+      [.call 1, .call 2, .clone, .call 10, .use 1, .call 100, .cloneFrom 0, .call 5, .use 0, .call 7]).1
+      = [1, 3, 13, 103, 18, 20] := by decide
+end pool
 
 end Thm.C16
